@@ -105,6 +105,9 @@ def scenarios(draw):
         sc["opts"] += ["--count_exons"]
     # the joint run keeps its saved read assignments and one more run is restarted from all of them at once
     sc["restart"] = src.bool(0.35)
+    # the in-memory path keeps per-read state of its own (read names repeat between experiments)
+    if src.bool(0.3):
+        sc["opts"] += ["--high_memory"]
     return sc
 
 
